@@ -44,7 +44,7 @@ theorem created_closed : Closed [] (created cfgOfSource) := by
   have htrees : (created cfgOfSource).pd.trees = [] := by decide
   refine ⟨⟨by decide, ⟨by decide, by decide⟩⟩, [], 0, by rfl, ?_, ?_, ?_⟩
   · exact ⟨by decide, by decide, by decide, by decide, by decide, List.Pairwise.nil, by intro tx h; simp at h⟩
-  · exact ⟨⟨by decide, by decide, by decide, by decide, ⟨[3, 4], by decide, by decide, by decide⟩⟩,
+  · exact ⟨⟨by decide, by decide, by decide, by decide, by decide, ⟨[3, 4], by decide, by decide, by decide⟩⟩,
       by decide, by decide, by decide, by intro i hi; rw [hlen] at hi; omega⟩
   · refine ⟨by intro k hk; simp [scan] at hk, by rw [hsegs]; intro s hs; simp at hs,
       by rw [htrees]; intro t ht; simp at ht, by intro e; simp [allEdges, logRuns, scan], by intro q hq; simp [logRuns] at hq,
